@@ -106,9 +106,7 @@ func ProvenBlock(needle string, gap time.Duration, pkgs ...string) (bool, string
 		if strings.Contains(ga.Stack, needle) {
 			found = true
 		}
-		first := strings.SplitN(strings.TrimSpace(ga.Stack), "\n", 2)[0]
 		desc = append(desc, fmt.Sprintf("g%s [%s] %s", id, ga.State, top(ga.Stack)))
-		_ = first
 	}
 	sort.Strings(desc)
 	if !found {
@@ -117,28 +115,36 @@ func ProvenBlock(needle string, gap time.Duration, pkgs ...string) (bool, string
 	return true, strings.Join(desc, "; ")
 }
 
-// top returns the first in-repo function of a stack.
+// top returns the first in-repo function of a stack, without its arguments.
 func top(stack string) string {
 	for _, l := range strings.Split(stack, "\n") {
 		l = strings.TrimSpace(l)
 		if strings.HasPrefix(l, "github.com/openconfig/gribigo/") {
-			return strings.TrimPrefix(l, "github.com/openconfig/gribigo/")
+			fn := strings.TrimPrefix(l, "github.com/openconfig/gribigo/")
+			for i := 0; i < len(fn); i++ {
+				if fn[i] == '(' && (i+1 >= len(fn) || fn[i+1] != '*') {
+					return fn[:i]
+				}
+			}
+			return fn
 		}
 	}
 	return "?"
 }
 
-// BlockSignature condenses a ProvenBlock description into a stable signature:
-// the sorted set of top in-repo functions the blocked goroutines sit in.
+// BlockSignature condenses a ProvenBlock description into a stable signature: the
+// sorted set of functions in which goroutines wait for a lock, or sit inside package
+// rib (goroutines leaked by earlier RPCs in other places do not enter the signature).
 func BlockSignature(desc string) string {
 	set := map[string]bool{}
 	for _, p := range strings.Split(desc, "; ") {
-		f := strings.Fields(p)
-		if len(f) > 0 {
-			fn := f[len(f)-1]
-			if i := strings.LastIndex(fn, "("); i > 0 {
-				fn = fn[:i]
-			}
+		i := strings.Index(p, "] ")
+		if i < 0 {
+			continue
+		}
+		fn := p[i+2:]
+		lock := strings.Contains(p, "Mutex") || strings.Contains(p, "semacquire")
+		if lock || strings.HasPrefix(fn, "rib.") {
 			set[fn] = true
 		}
 	}
@@ -147,5 +153,49 @@ func BlockSignature(desc string) string {
 		out = append(out, s)
 	}
 	sort.Strings(out)
+	if len(out) == 0 {
+		return "no-lock-waiter"
+	}
 	return strings.Join(out, ",")
+}
+
+// WaitQuiescent waits until the code under test is quiescent: in two consecutive
+// dumps every goroutine with an in-repo frame is the same goroutine with the same
+// stack in a blocked state (goroutines leaked by earlier RPCs are blocked for good
+// and do not prevent this). Only meaningful when one workload at a time runs in the
+// process. Returns false if that did not happen within max.
+func WaitQuiescent(max time.Duration, pkgs ...string) bool {
+	deadline := time.Now().Add(max)
+	var prev map[string]Goroutine
+	for {
+		cur := map[string]Goroutine{}
+		stable := true
+		for _, g := range InRepo(Dump(), pkgs...) {
+			cur[g.ID] = g
+			if !blockedState(g.State) {
+				stable = false
+			}
+		}
+		if stable && prev != nil && len(prev) == len(cur) {
+			same := true
+			for id, g := range cur {
+				if p, ok := prev[id]; !ok || p.Stack != g.Stack || p.State != g.State {
+					same = false
+					break
+				}
+			}
+			if same {
+				return true
+			}
+		}
+		if stable {
+			prev = cur
+		} else {
+			prev = nil
+		}
+		if time.Now().After(deadline) {
+			return false
+		}
+		time.Sleep(150 * time.Microsecond)
+	}
 }
